@@ -29,6 +29,9 @@ def run(ctx):
     ctx.each(r09d, ctx, repo, T)
     ctx.each(r09e, ctx, repo)
     ctx.each(r09f, ctx, repo)
+    from . import c03 as _c03
+
+    ctx.each(_c03.r03f, ctx, repo)  # extending the end year reproduces the shorter run: the grid spacing is dt whatever the end year, so the end is re-snapped whenever start or step change
     ctx.each(c06.r06n, ctx, repo)  # the function of a scenario parameter is suspended on exactly the scenario window, evaluated everywhere else (also when no simulated time lies inside the window)
     ctx.each(c06.r06b, ctx, repo)  # before the scenario start a precomputed function parameter keeps its function values: the build-time evaluation is not switched off by the suspension window
     ctx.each(c06.r06g, ctx, repo)  # program overwrites and program-book series are stepped ('previous') series: before the first point they hold the first value
